@@ -41,7 +41,8 @@ pub fn consts() -> Consts {
 pub mod transport;
 /// Hooks for the codec engines (wire messages, onion failure packets).
 pub mod codec;
-/// Hooks for the onion engine (failure-packet construction / attribution helpers).
-pub mod onion;
+/// Hooks for the onion engine (failure-packet construction / attribution helpers). The file
+/// `verif/onion.rs` is compiled inside `crate::ln` so that it can reach `pub(super)` helpers.
+pub use crate::ln::verif_onion as onion;
 /// Read-only view of the steps of a `ChannelMonitorUpdate`.
 pub mod monitor;
